@@ -10,6 +10,19 @@ size_t _mi_os_good_alloc_size(size_t size)
 __CPROVER_requires(1) __CPROVER_assigns()
 __CPROVER_ensures(__CPROVER_return_value == g_good);
 
+/* The same function against its specification (ENFORCED on the real os.c, pair good_alloc_size): a pure rounding-up of `size` --
+   never below the request (a region recorded with this size covers the block), less than one rounding unit (<= 4 MiB) above it,
+   a multiple of the OS page size unless the sum would overflow, and no state read or written except the page-size constant
+   (assigns(): so two calls with the same size -- one at allocation, one at free, F-C11 -- agree, which is what the logical
+   variable g_good of the contract above stands for). These are the facts the contracts below assume about g_good. */
+static size_t c_good_alloc_size_spec(size_t size)
+__CPROVER_requires(VC_POW2(g_os_page_size) && g_os_page_size >= 512 && g_os_page_size <= 65536) __CPROVER_assigns()
+__CPROVER_ensures(__CPROVER_return_value >= size && __CPROVER_return_value - size < ((size_t)4 << 20))
+__CPROVER_ensures(size < 512*1024 ==> __CPROVER_return_value - size < g_os_page_size)
+__CPROVER_ensures(size < SIZE_MAX - ((size_t)4 << 20) ==> (__CPROVER_return_value & (g_os_page_size - 1)) == 0)
+__CPROVER_ensures(size < ((size_t)1 << 40) ==> __CPROVER_return_value < ((size_t)1 << 41))
+__CPROVER_ensures((size & (((size_t)4 << 20) - 1)) == 0 ==> __CPROVER_return_value == size);     /* already rounded: unchanged (idempotence) */
+
 /* `memid` describes the live mapping [g_region_base, +g_region_size) as _mi_os_alloc(_aligned(_at_offset)) leave it:
    recorded base (or none: then the region starts at addr), recorded size 0, and
    (addr - base) + good_size(size) == size of the region. */
